@@ -524,6 +524,7 @@ def mon_violation(log):
     prev_level = 0       # ... at the previous statement boundary
     prev_play_mode = 'OFF'
     interval = False     # a TIMER interval has been defined
+    play_n = 1           # the n of PLAY(n): 1 until ON PLAY(n) GOSUB sets it (PlayHandler.trig)
 
     def m(e):
         return mode.get(e, 'OFF')
@@ -565,9 +566,13 @@ def mon_violation(log):
             elif k == 'gs':
                 handler[e] = True
                 interval = interval or e == TIMER      # ON TIMER(x) GOSUB defines the interval
+                if e == PLAY:
+                    play_n = PLAY_N
             elif k == 'gs0':
                 handler[e] = False
                 interval = interval or e == TIMER
+                if e == PLAY:
+                    play_n = PLAY_N
             elif k == 'defkey':
                 defined.add(e)
             elif k in ('run', 'chain', 'clear', 'new'):
@@ -578,6 +583,7 @@ def mon_violation(log):
                 stuck = set()
                 defined = set()
                 interval = False
+                play_n = 1
                 in_error_handler = False
                 had_error = False
             elif k == 'renum':
@@ -593,7 +599,7 @@ def mon_violation(log):
         elif t == 'boundary':
             # PLAY(n): the event occurs when the number of notes waiting drops below n (seen at the
             # granularity of statements)
-            if handler.get(PLAY) and prev_level >= PLAY_N > level:
+            if prev_level >= play_n > level:
                 if m(PLAY) != 'OFF':
                     pending[PLAY] = True if prev_play_mode != 'OFF' else (pending.get(PLAY) or 'maybe')
             prev_level = level
@@ -739,6 +745,10 @@ class C38(core.Check):
             # PLAY(2): the queue drops below 2 while ON; while STOPped (remembered)
             [('gs', 22), ('on', 22), ('start', 0), ('playq', 3), ('playq', 1), ('ret', 0), ('playq', 4),
              ('stop', 22), ('playq', 0), ('on', 22), ('ret', 0)],
+            # PLAY ON before ON PLAY(n) GOSUB: the event is "fewer than 1 note left" until n is defined; it
+            # occurs while ON, is remembered, and is handled once the routine is defined (like a key press)
+            [('playq', 2), ('on', 22), ('playq', 0), ('gs', 22), ('gosub', 0)],
+            [('playq', 2), ('on', 22), ('start', 0), ('playq', 1), ('gs', 22), ('playq', 0), ('gs', 22)],
             # D38a: the queue drops while PLAY is OFF: lost
             [('gs', 22), ('on', 22), ('start', 0), ('playq', 3), ('off', 22), ('playq', 0), ('on', 22)],
             # RENUM / CLEAR / NEW / CHAIN inside a handler
